@@ -17,12 +17,13 @@ Names0 == [f |-> <<>>, u |-> <<>>, t |-> <<>>, A |-> <<>>, P |-> <<>>, R |-> <<>
 Smooth(r)  == r.npre >= 1 /\ r.npost >= 1
 Palin(r)   == r.npre = r.npost /\ r.symsm /\ r.adjR
 CycleObsClauses(r) ==
-    << <<"linear", r.lin <= -11000>>,
-       <<"independent-of-earlier-applications", r.hist>>,
-       <<"power-of-two-scaling-exact", r.ilut \/ r.scaled>>,
-       <<"symmetric", (Palin(r) /\ r.mmat) => r.sym <= -9000>>,
-       <<"positive-definite", (Palin(r) /\ r.mmat) => r.posdef>>,
-       <<"contraction", (r.mmat /\ r.symsm /\ Smooth(r)) => r.rho < 1048576>> >>
+    << <<"finite", r.finite>>,
+       <<"linear", r.finite => r.lin <= -11000>>,
+       <<"independent-of-earlier-applications", r.finite => r.hist>>,
+       <<"power-of-two-scaling-exact", r.finite => (r.ilut \/ r.scaled)>>,
+       <<"symmetric", (r.finite /\ Palin(r) /\ r.mmat) => r.sym <= -9000>>,
+       <<"positive-definite", (r.finite /\ Palin(r) /\ r.mmat) => r.posdef>>,
+       <<"contraction", (r.finite /\ r.mmat /\ r.symsm /\ Smooth(r)) => r.rho < 1048576>> >>
 
 \* ---------------------------------------------------------------- op stream
 IsOp(r)  == Has(r, "e") /\ r.e = "op"
